@@ -6,6 +6,7 @@ import (
 	"io"
 	"os"
 	"runtime"
+	"strings"
 )
 
 func main() {
@@ -22,6 +23,8 @@ func main() {
 		seed := fs.Int64("seed", 1, "seed")
 		workers := fs.Int("workers", runtime.NumCPU(), "parallel vectors")
 		maxFail := fs.Int("maxfail", 200, "failures kept in the summary")
+		fams := fs.String("fams", "", "replay only vectors of these families (comma-separated prefixes)")
+		perFam := fs.Int("perfam", 0, "with -fams: at most this many vectors per family")
 		fs.Parse(os.Args[2:])
 		var r io.Reader = os.Stdin
 		if *in != "-" {
@@ -32,6 +35,10 @@ func main() {
 			}
 			defer f.Close()
 			r = f
+		}
+		if *fams != "" {
+			famFilter = strings.Split(*fams, ",")
+			famCap = *perFam
 		}
 		os.Exit(replayMain(r, *trace, *out, *seed, *workers, *maxFail))
 	default:
